@@ -241,6 +241,21 @@ func mutate(root, rel string) []Mut {
 				}
 				add(e, s, en, "", "del-elt")
 			}
+		case *ast.BlockStmt:
+			// exchange two adjacent statements (ordering mistakes: unlock before the update, rename before fsync)
+			for i := 0; i+1 < len(n.List); i++ {
+				a, b := n.List[i], n.List[i+1]
+				if _, ok := a.(*ast.DeclStmt); ok {
+					continue
+				}
+				if _, ok := b.(*ast.ReturnStmt); ok {
+					continue
+				}
+				if text(a) == text(b) {
+					continue
+				}
+				add(a, off(a.Pos()), off(b.End()), text(b)+string(src[off(a.End()):off(b.Pos())])+text(a), "swap-stmts")
+			}
 		case *ast.ReturnStmt:
 			if len(n.Results) == 0 {
 				break
